@@ -35,6 +35,13 @@ def match_known(known, prop, viol):
 
 
 def check(prop, tier, replay, C):
+    # two checks of the SAME property from the same tree share build/out/<ID> and evidence/<ID>.json:
+    # they run one after the other (different properties still run in parallel)
+    with C.Lock(f"check_{prop}.lock"):
+        return _check(prop, tier, replay, C)
+
+
+def _check(prop, tier, replay, C):
     t0 = time.time()
     if prop not in PROPS:
         print(f"unknown property {prop}")
